@@ -288,12 +288,32 @@ fn fixed_sets(rng: &mut Rng, n_adv: usize) -> Vec<Set> {
         vec![e("main", None), e("inc", None)],
     ));
     protos.push((
-        t(&[(
-            "m",
-            "{{ {\"k\": a, ...b, \"z\": 1} }}{{ [1, ...c, a] }}{% set m = {\"x\": a} %}{{ m.x }}{{ [x * 2 for x in c if x] }}{{ [k ~ v for k, v in b] }}{{ a ?? b }}{{ a[b] }}{{ a[1:] }}{{ a[::-1] }}{{ c[a:b:1] }}{{ a in c }}{{ a < b }}{{ a ** b }}{{ -a }}{{ a // b }}{{ a % b }}{{ not a }}",
-        )]),
-        vec![e("m", None)],
+        t(&[
+            ("loopset", "{% for x in c %}[{{ w | default(value=\"-\") }}{% set w = x %}{{ w }}{% set_global g = x %}{% for y in c %}{{ w }}{{ v | default(value=\"_\") }}{% set v = y %}{% if y %}{% continue %}{% endif %}{% set w = 0 %}{% endfor %}{{ w }}]{% else %}E{% endfor %}{{ g | default(value=\"G\") }}{{ w | default(value=\"W\") }}"),
+            ("kv", "{% for k, v in b %}{{ loop.index }}{{ loop.first }}{{ loop.last }}{{ loop.length }}{{ k }}={{ v }}{% if loop.index0 == 1 %}{% break %}{% endif %}{% endfor %}{% for ch in a %}{{ ch }}{{ loop.index0 }},{% endfor %}"),
+        ]),
+        vec![e("loopset", None), e("kv", None)],
     ));
+    {
+        // one template per expression form so that an error in one does not hide the others
+        let exprs = [
+            "{\"k\": a, ...b, \"z\": 1}", "[1, ...c, a]", "[x * 2 for x in c if x]", "[k ~ v for k, v in b]",
+            "a[b]", "a[1:]", "a[::-1]", "c[a:b:1]", "c[a]", "a in c", "a < b", "a >= b", "a == b", "a != c", "a ** b", "-a", "a // b", "a % b",
+            "a / b", "a * b", "a + b", "a - b", "a ~ b ~ c", "not a", "a and b or c", "a if b else c", "a?.b", "a?.b?.c", "a?[b]", "c?[1:]",
+            "a | default(value=b)", "c | length", "c | first", "c | join(sep=a)", "a | str", "a | safe", "b | int", "a | abs", "c | reverse",
+            "a is defined", "a is string", "b is odd", "a is containing(pat=b)", "range(end=b)", "range(start=a, end=b, step_by=a)", "b | keys", "b | values",
+            "a | get(key=\"b\", default=c)", "a | replace(from=\"l\", to=b)", "a | truncate(length=b)", "a | split(pat=\"l\")", "a | round", "a | nth(n=b)",
+            "c | pairs", "a | trim", "a | capitalize", "a | title", "a | wordcount", "a | indent(width=b)", "b | pluralize", "a | escape_html", "a | float", "c | last",
+            "a is divisible_by(divisor=b)", "a is starting_with(pat=\"l\")", "a is number", "a is iterable", "a is none",
+        ];
+        for (i, ex) in exprs.iter().enumerate() {
+            let tpls = vec![
+                (format!("e{i}"), format!("[{{{{ {ex} }}}}]")),
+                (format!("s{i}"), format!("{{% set w = {ex} %}}{{% if w %}}T{{% else %}}F{{% endif %}}{{% for q in [{ex}] %}}{{{{ loop.index }}}}{{{{ q is defined }}}}{{% endfor %}}")),
+            ];
+            protos.push((tpls, vec![(format!("e{i}"), None), (format!("s{i}"), None)]));
+        }
+    }
     let mut out = Vec::new();
     for (templates, entries) in protos {
         let rich = bcgen::LATTICE[bcgen::RICH].to_string();
@@ -632,8 +652,8 @@ fn main() {
     // ---- cases
     let mut ev_hist = BTreeMap::new();
     let mut sets = fixed_sets(&mut rng, env.budget(8, 40));
-    sets.extend(bcgen_sets(&mut rng, env.budget(1, 4), env.budget(120, 1500), env.budget(3, 8), env.budget(4, 12)));
-    sets.extend(evgen_sets(&mut rng, env.budget(450, 6000), env.budget(3, 6), &mut ev_hist));
+    sets.extend(bcgen_sets(&mut rng, env.budget(3, 10), env.budget(600, 6000), env.budget(3, 8), env.budget(4, 12)));
+    sets.extend(evgen_sets(&mut rng, env.budget(3000, 40000), env.budget(3, 6), &mut ev_hist));
     for s in &sets {
         report.count(&format!("sets.{}", s.stream.split('.').take(2).collect::<Vec<_>>().join(".")));
     }
@@ -668,7 +688,7 @@ fn main() {
                 } else if l.starts_with("adderr") {
                     report.count("sets.rejected_at_registration");
                     if report.notes.len() < 4 {
-                        report.notes.push(format!("not registered: {:?}: {}", sets[si].templates, l.chars().take(160).collect::<String>()));
+                        report.notes.push(format!("not registered: {}: {}", format!("{:?}", sets[si].templates).chars().take(300).collect::<String>(), l.chars().take(160).collect::<String>()));
                     }
                 }
             }
